@@ -285,22 +285,56 @@ Proof.
       assert (existsb is_false l = true); [|congruence]. apply existsb_exists. exists (Some false). auto.
 Qed.
 
-Lemma sqlite3_allow_parts tokens :
-  sqlite3_shortcut tokens = None -> sqlite3_classify tokens = Allow ->
-  sqlite3_parts (tl tokens) false <> [] /\
-  Forall (fun part => sqlite3_sql part = Some true) (sqlite3_parts (tl tokens) false).
+(* _classify_sql answers True only when neither guard fires *)
+Lemma classify_sql_true part : classify_sql part = Some true ->
+  tcl_search part = false /\ shell_fn_search part = false /\ sqlite3_sql part = Some true.
 Proof.
-  unfold sqlite3_classify. intros -> H.
-  destruct (sqlite3_parts (tl tokens) false) as [|p ps] eqn:E; [discriminate|].
-  split; [discriminate|].
-  destruct (combine_results (map sqlite3_sql (p :: ps))) as [[|]|] eqn:C; cbn [is_true] in H; try discriminate.
-  apply combine_results_true in C. rewrite Forall_forall in *. intros x Hx. apply C, in_map, Hx.
+  unfold classify_sql, sqlite3_sql. destruct (tcl_search part); [discriminate|]. destruct (shell_fn_search part); [discriminate|].
+  auto.
 Qed.
 
-(* without options, every token after the database name is an SQL argument *)
-Lemma sqlite3_parts_plain ts : forallb (fun t => negb (is_dash t)) ts = true -> sqlite3_parts ts true = ts.
+(* the three ways the repaired handler allows *)
+Lemma sqlite3_allow_cases tokens :
+  sqlite3_classify tokens = Allow ->
+  let '(parts, help_flag, readonly_flag, cmd_seen) := sqlite3_scan (tl tokens) false in
+  mem_str $"-init" tokens = false /\
+  ((help_flag = true /\ cmd_seen = false) \/
+   (readonly_flag = true /\ forall part, In part parts -> acts_anyway part = false) \/
+   (parts <> [] /\ forall part, In part parts -> classify_sql part = Some true)).
 Proof.
-  induction ts as [|t r IH]; cbn [forallb sqlite3_parts]; [reflexivity|].
+  unfold sqlite3_classify, sqlite3_shortcut, sqlite3_parts.
+  destruct (mem_str $"-init" tokens); [discriminate|].
+  destruct (sqlite3_scan (tl tokens) false) as [[[parts h] r] c].
+  destruct (h && negb c) eqn:E1.
+  { intros _. split; [reflexivity|]. left. apply andb_true_iff in E1 as [-> E]. apply negb_true_iff in E. auto. }
+  destruct (r && negb (existsb acts_anyway parts)) eqn:E2.
+  { intros _. split; [reflexivity|]. right; left. apply andb_true_iff in E2 as [-> E]. apply negb_true_iff in E.
+    split; [reflexivity|]. intros part Hin. destruct (acts_anyway part) eqn:A; [|reflexivity].
+    assert (existsb acts_anyway parts = true) by (apply existsb_exists; eauto). congruence. }
+  intro H. split; [reflexivity|]. right; right.
+  destruct parts as [|p ps]; [discriminate|]. split; [discriminate|].
+  destruct (combine_results (map classify_sql (p :: ps))) as [[|]|] eqn:C; cbn [is_true] in H; try discriminate.
+  apply combine_results_true in C. rewrite Forall_forall in C. intros x Hx. apply C, in_map, Hx.
+Qed.
+
+Lemma sqlite3_init_ask tokens : mem_str $"-init" tokens = true -> sqlite3_classify tokens = Ask.
+Proof. unfold sqlite3_classify, sqlite3_shortcut. intros ->. reflexivity. Qed.
+
+(* on the SQL path one argument that is not read-only is enough for "ask" *)
+Lemma sqlite3_one_unknown tokens part :
+  sqlite3_shortcut tokens = None -> In part (sqlite3_parts (tl tokens) false) -> classify_sql part <> Some true ->
+  sqlite3_classify tokens = Ask.
+Proof.
+  unfold sqlite3_classify. intros -> Hin Hn.
+  destruct (sqlite3_parts (tl tokens) false) as [|p ps] eqn:E; [reflexivity|].
+  destruct (combine_results (map classify_sql (p :: ps))) as [[|]|] eqn:C; cbn [is_true]; try reflexivity.
+  apply combine_results_true in C. rewrite Forall_forall in C. exfalso. apply Hn, C, in_map, Hin.
+Qed.
+
+(* without options every token after the database name is an SQL argument and no flag is set *)
+Lemma sqlite3_scan_plain ts : forallb (fun t => negb (is_dash t)) ts = true -> sqlite3_scan ts true = (ts, false, false, false).
+Proof.
+  induction ts as [|t r IH]; cbn [forallb sqlite3_scan]; [reflexivity|].
   intro H. apply andb_true_iff in H as [Ht Hr]. apply negb_true_iff in Ht.
   assert (forall l, forallb (prefixb $"-") l = true -> mem_str t l = false) as Hno.
   { intros l Hl. destruct (mem_str t l) eqn:M; [|reflexivity]. apply mem_str_In in M.
@@ -308,5 +342,7 @@ Proof.
   rewrite (Hno SQLITE3_NOARG_FLAGS) by (vm_compute; reflexivity).
   rewrite (Hno SQLITE3_ONEARG_FLAGS) by (vm_compute; reflexivity).
   destruct (str_eqb_spec t $"-lookaside") as [->|_]; [vm_compute in Ht; discriminate|].
-  rewrite Ht. cbn [negb]. f_equal. apply IH, Hr.
+  rewrite Ht. cbn [negb]. rewrite (IH Hr). reflexivity.
 Qed.
+Lemma sqlite3_parts_plain ts : forallb (fun t => negb (is_dash t)) ts = true -> sqlite3_parts ts true = ts.
+Proof. intro H. unfold sqlite3_parts. rewrite (sqlite3_scan_plain ts H). reflexivity. Qed.
